@@ -180,7 +180,9 @@ package hclsyntax
 //@ requires p.peeker != nil && len(p.peeker.IncludeNewlinesStack) >= 1
 //@ ensures depth: len(p.peeker.IncludeNewlinesStack) == old(len(p.peeker.IncludeNewlinesStack))
 //@ ensures samePeeker: p.peeker == old(p.peeker)
+//@ ensures srcBytes: forall q *byte :: { deref(q) } existed(q) ==> deref(q) == old(deref(q))
 //@ loopall invariant p.peeker == old(p.peeker) && len(p.peeker.IncludeNewlinesStack) == atentry(len(p.peeker.IncludeNewlinesStack))
+//@ loopall invariant srcBytes: forall q *byte :: { deref(q) } existed(q) ==> deref(q) == old(deref(q))
 
 // Entry points: the newline stack is balanced when the parser returns, so the
 // stack-discipline assertion (a panic) is unreachable for every input.
